@@ -12,6 +12,11 @@ DESCR = {
                          "generated/DriverGen.v; the refinement generated code -> model (proofs/DriverTie.v, for all arguments) is "
                          "compiled with the property's theorem file; one case per translated function"),
     "translate_core": ("G:tracker source translator", "see core_units.g_unit"),
+    "translate_memory": ("G:memory source translator",
+                         "ast translation (harness/pytrans.py, fail-closed) of the closure Memory.memory(objective).wrapper(para) of _memory.py "
+                         "into generated/MemGen.v (dictionary membership / lookup / update on position-tuple keys, the converter calls are the "
+                         "model's, the objective is a Section variable with a call log); Memory.__init__ is pinned by digest; the refinement "
+                         "generated wrapper -> Driver.lookup (proofs/MemTie.v) is compiled with the property's theorem file"),
     "translate_grid": ("G:grid source translator",
                        "ast translation (harness/pytrans.py, fail-closed) of the grid-search position decoders and pointer update into "
                        "generated/GridGen.v; refinement to theories/Grid.v proved in proofs/GridTie.v; one case per translated function"),
@@ -49,7 +54,7 @@ def g_unit(ctx, modname):
     return u
 
 
-ALL_TRANSLATORS = ["translate_core", "translate_driver", "translate_grid", "translate_search"]
+ALL_TRANSLATORS = ["translate_core", "translate_driver", "translate_grid", "translate_search", "translate_memory"]
 
 
 def refresh_all(ctx):
